@@ -7,8 +7,12 @@ import (
 	"fmt"
 	"io"
 	"math"
+	"os"
+	"os/exec"
+	"path/filepath"
 	"strconv"
 	"strings"
+	"time"
 
 	wt "github.com/hnakamur/whispertool"
 	"github.com/hnakamur/whispertool/cmd"
@@ -150,5 +154,55 @@ func init() {
 		case *cmd.ViewRawCommand:
 			s.obs("cliargs run sb=%s s=%s from=%d until=%d arch=%d hdr=%v sort=%v to=%s", hexStr(v.SrcBase), hexStr(v.SrcRelPath), uint32(v.From), uint32(v.Until), v.ArchiveID, v.ShowHeader, v.SortsByTime, hexStr(v.TextOut))
 		}
+	}
+}
+
+func init() {
+	// cliexit src=base:rel dest=base:rel from= until= archive= : diff run as a process -- the program
+	// built from cmd/whispertool/main.go with real command-line flags; its exit status (0 success,
+	// 1 difference found, 2 error) is reported as ok / diff / err, its text output as the records
+	handlers["cliexit"] = func(s *sess, tk []string) {
+		a := parseKV(tk[1:])
+		s.closeAll()
+		sb, sr := baseRel(a["src"])
+		db, dr := baseRel(a["dest"])
+		out := filepath.Join(s.dir, fmt.Sprintf("exit-out-%d.txt", len(tk)+int(time.Now().UnixNano()%1000)))
+		args := []string{"diff", "-src-base", filepath.Join(s.dir, sb), "-src=" + sr, "-dest-base", filepath.Join(s.dir, db), "-archive", fmt.Sprint(a.num("archive", -1)), "--text-out", out}
+		if dr != "" {
+			args = append(args, "-dest", dr)
+		}
+		if a.num("until", 0) != 0 || a.num("from", 0) != 0 {
+			args = append(args, "-from="+wt.Timestamp(a.num("from", 0)).String(), "-until", wt.Timestamp(a.num("until", 0)).String())
+		}
+		var files []string
+		if hasMeta(sr) {
+			files = s.globRel(sb, sr)
+		}
+		bin := filepath.Join(filepath.Dir(os.Args[0]), "whispertool")
+		c := exec.Command(bin, args...)
+		c.Stdout, c.Stderr = io.Discard, io.Discard
+		t0 := time.Now().Unix()
+		err := c.Run()
+		t1 := time.Now().Unix()
+		status := "ok"
+		if err != nil {
+			var ee *exec.ExitError
+			if errors.As(err, &ee) {
+				switch ee.ExitCode() {
+				case 1:
+					status = "diff"
+				case 2:
+					status = "err"
+				default:
+					status = fmt.Sprintf("exit%d", ee.ExitCode())
+				}
+			} else {
+				must(err)
+			}
+		}
+		text, _ := os.ReadFile(out)
+		recs, nows := parseOutput(string(text))
+		s.echo(fmt.Sprintf("%s nows=%s files=%s clock=%d,%d", strings.Join(tk, " "), csvOrDash(nows), csvOrDash(files), t0, t1))
+		s.emit("cliexit", status, recs)
 	}
 }
